@@ -616,6 +616,7 @@ package signal
 //@     decreases ch - $i
 //@   loop 3
 //@     invariant 0 <= $i && $i <= written
+//@     invariant disjoint(src[$i2], dst)
 //@     invariant forall(c, 0, $i2, forall(i, 0, written,
 //@     |   at(dst, bi(ch, c, i)) == ite(i < len(src[c]), conv(S, D, old(src[c][i])), zero(D))))
 //@     invariant forall(i, 0, $i, at(dst, bi(ch, $i2, i)) == ite(i < len(src[$i2]), conv(S, D, old(src[$i2][i])), zero(D)))
